@@ -24,6 +24,17 @@ class Env:
 
     def __init__(self, env, importable, calls=None):
         self.env, self.importable, self.calls = env, importable, calls
+        self.broken = (len(json.dumps([env, sorted(importable)])) % 2 == 0)
+        self.blocked = []
+        outer = self
+
+        class Finder:
+            @staticmethod
+            def find_spec(name, path=None, target=None):
+                if name in outer.blocked:
+                    raise ImportError("the extension module " + name + " is present but cannot be loaded")
+                return None
+        self.finder = Finder
 
     def __enter__(self):
         self.saved_env = {k: os.environ.get(k) for k in ENVS.values()}
@@ -44,11 +55,18 @@ class Env:
                         return "unsat\n" if "\n#" in "\n" + desc else "s UNSATISFIABLE\n"
                     fake.solver = solver
                 sys.modules[m] = fake
+            elif self.broken:
+                sys.modules.pop(m, None)   # present but broken: importing it raises a plain ImportError
+                self.blocked.append(m)
             else:
-                sys.modules[m] = None      # import raises ImportError
+                sys.modules[m] = None      # absent: import raises ModuleNotFoundError
+        if self.blocked:
+            sys.meta_path.insert(0, self.finder)
         return self
 
     def __exit__(self, *a):
+        if self.finder in sys.meta_path:
+            sys.meta_path.remove(self.finder)
         for k, v in self.saved_env.items():
             if v is None:
                 os.environ.pop(k, None)
@@ -108,7 +126,7 @@ def replay_dispatch(o, workdir):
     try:
         cfg.default_backend = o["cfg"]["backend"]
         cfg.backend_path = os.path.join(os.path.dirname(os.path.abspath(__file__)), "..", "harness", "fake_sugar.py")
-        with Env({}, ["cspuz_core", "enigma_csp", "pycsugar", "z3"], calls):
+        with Env({}, sorted(set(o.get("importable", MODULES)) | {"z3"}), calls):
             s = Solver()
             x = s.bool_var()
             s.ensure(x)
@@ -134,8 +152,12 @@ def replay_dispatch(o, workdir):
                     got = "nothing observable"
             except ValueError:
                 got = "ValueError"
+            except ImportError:
+                got = "ImportError" if not calls else "ImportError after a call reached " + calls[0][0]
             except Exception as e:  # noqa
                 got = "raised " + type(e).__name__
+            if calls and got == o["result"] and {"pycsugar": "csugar"}.get(calls[0][0], calls[0][0]) != got:
+                got += " but the call went to " + calls[0][0]
     finally:
         cfg.default_backend, cfg.backend_path, cfg.use_graph_primitive, cfg.use_graph_division_primitive = saved
     return o["result"], got
